@@ -98,15 +98,15 @@ type T struct {
 	Orig any
 }
 
-func Ident(name string) *T   { return &T{K: KIdent, S: name} }
-func Str(v string) *T        { return &T{K: KStr, S: v} }
-func Int(v int64) *T         { return &T{K: KInt, I: v} }
-func Float(v float64) *T     { return &T{K: KFloat, F: v} }
-func Bool(v bool) *T         { return &T{K: KBool, B: v} }
-func Nil() *T                { return &T{K: KNil} }
-func List(e ...*T) *T        { return &T{K: KList, Kids: e} }
-func Map(kv ...*T) *T        { return &T{K: KMap, Kids: kv} }
-func Paren(e *T) *T          { return &T{K: KParen, Kids: []*T{e}} }
+func Ident(name string) *T     { return &T{K: KIdent, S: name} }
+func Str(v string) *T          { return &T{K: KStr, S: v} }
+func Int(v int64) *T           { return &T{K: KInt, I: v} }
+func Float(v float64) *T       { return &T{K: KFloat, F: v} }
+func Bool(v bool) *T           { return &T{K: KBool, B: v} }
+func Nil() *T                  { return &T{K: KNil} }
+func List(e ...*T) *T          { return &T{K: KList, Kids: e} }
+func Map(kv ...*T) *T          { return &T{K: KMap, Kids: kv} }
+func Paren(e *T) *T            { return &T{K: KParen, Kids: []*T{e}} }
 func Unary(op string, e *T) *T { return &T{K: KUnary, Op: op, Kids: []*T{e}} }
 func Call(name string, args ...*T) *T {
 	return &T{K: KCall, S: name, Kids: args}
